@@ -257,6 +257,317 @@ Proof.
       exists s, []. split; reflexivity.
 Qed.
 
+(* ---- partition lists: the kept partitions are not recorded dropped in the tables before the step ---- *)
+
+Lemma str_length_append : forall a b : string,
+  String.length (a ++ b) = (String.length a + String.length b)%nat.
+Proof. induction a as [| x a IH]; intros b; cbn; [reflexivity | rewrite IH; reflexivity]. Qed.
+
+Lemma append_inj_suffix : forall a b c d : string,
+  String.length c = String.length d -> (a ++ c = b ++ d)%string -> a = b /\ c = d.
+Proof.
+  induction a as [| x a IH]; intros b c d Hl H; destruct b as [| y b]; cbn in H.
+  - split; [reflexivity | exact H].
+  - exfalso. rewrite H in Hl. cbn in Hl. rewrite str_length_append in Hl. lia.
+  - exfalso. rewrite <- H in Hl. cbn in Hl. rewrite str_length_append in Hl. lia.
+  - injection H as -> H. destruct (IH b c d Hl H) as [-> ->]. split; reflexivity.
+Qed.
+
+Lemma ckey_neq : forall k0 k, k0 <> k -> String.eqb (ckey k0) (ckey k) = false.
+Proof.
+  intros k0 k Hn. apply neq_eqb_false. unfold ckey. intros H.
+  apply append_inj_suffix in H; [| reflexivity]. destruct H as [H _]. contradiction.
+Qed.
+
+Lemma ckey_dkey_neq : forall k0 k, String.eqb (ckey k0) (dkey k) = false.
+Proof.
+  intros k0 k. apply neq_eqb_false. unfold ckey, dkey. intros H.
+  apply append_inj_suffix in H; [| reflexivity]. destruct H as [_ H]. discriminate H.
+Qed.
+
+(* every key recorded dropped (at time ts) in m is still recorded dropped in m' *)
+Definition pres (ts : N) (m m' : smap) : Prop :=
+  forall k, tbl_state m k ts = Dropped -> tbl_state m' k ts = Dropped.
+
+Lemma pres_refl : forall ts m, pres ts m m.
+Proof. intros ts m k H. exact H. Qed.
+
+Lemma pres_trans : forall ts m1 m2 m3, pres ts m1 m2 -> pres ts m2 m3 -> pres ts m1 m3.
+Proof. intros ts m1 m2 m3 H1 H2 k H. apply H2, H1, H. Qed.
+
+(* recording a creation for a key whose decision is Unknown keeps every Dropped decision *)
+Lemma sput_ckey_pres : forall m k0 v ts,
+  tbl_state m k0 ts = Unknown -> pres ts m (sput m (ckey k0) v).
+Proof.
+  intros m k0 v ts Hu k Hk.
+  destruct (String.eqb_spec k0 k) as [-> | Hn].
+  - rewrite Hu in Hk. discriminate Hk.
+  - unfold tbl_state, sdef, sput in *.
+    rewrite (ckey_neq _ _ Hn), (ckey_dkey_neq k0 k). exact Hk.
+Qed.
+
+Lemma wait_part_tbl : forall e s coll part db ts,
+  wait_part e s coll part db ts =
+  match tbl_state (parti s) (part_key part coll db) ts with
+  | Unknown =>
+      let '(tdb, tcoll) := map_names (e_nm e) db coll in
+      let pc := probe_call KDescribePartition tdb "" tcoll [part] in
+      if existsb (fun x => String.eqb (fst x) tdb && pair_str_eqb (snd x) (tcoll, part)) (e_parts e)
+      then ({| dbi := dbi s; coli := coli s;
+               parti := sput (parti s) (ckey (part_key part coll db)) (sdef (parti s) (dkey (part_key part coll db)) + 1) |},
+            [pc], Created)
+      else (s, [pc], Unknown)
+  | st => (s, [], st)
+  end.
+Proof. intros. reflexivity. Qed.
+
+Lemma wait_part_inv : forall e s coll part db ts s1 c1 r,
+  wait_part e s coll part db ts = (s1, c1, r) ->
+  pres ts (parti s) (parti s1) /\ all_probes c1 = true
+  /\ (r <> Dropped -> tbl_state (parti s) (part_key part coll db) ts <> Dropped).
+Proof.
+  intros e s coll part db ts s1 c1 r H.
+  rewrite wait_part_tbl in H.
+  destruct (tbl_state (parti s) (part_key part coll db) ts) eqn:Ht.
+  - destruct (map_names (e_nm e) db coll) as [tdb tcoll].
+    cbv zeta in H.
+    destruct (existsb _ (e_parts e)); injection H as <- <- <-.
+    + split; [| split].
+      * cbn [parti]. apply sput_ckey_pres. exact Ht.
+      * reflexivity.
+      * intros _. discriminate.
+    + split; [apply pres_refl | split; [reflexivity | intros _; discriminate]].
+  - injection H as <- <- <-.
+    split; [apply pres_refl | split; [reflexivity | intros _; discriminate]].
+  - injection H as <- <- <-.
+    split; [apply pres_refl | split; [reflexivity | intros Hn; contradiction]].
+Qed.
+
+Lemma wait_db_inv : forall e s db ts coll s1 c1 r,
+  wait_db e s db ts coll = (s1, c1, r) -> parti s1 = parti s /\ all_probes c1 = true.
+Proof.
+  intros e s db ts coll s1 c1 r H.
+  rewrite wait_db_tbl in H.
+  destruct (String.eqb db "" || String.eqb db "default").
+  - injection H as <- <- <-. split; reflexivity.
+  - destruct (tbl_state (dbi s) (db_key db) ts).
+    + cbv zeta in H. destruct (mem_str _ (e_dbs e)); injection H as <- <- <-; split; reflexivity.
+    + injection H as <- <- <-. split; reflexivity.
+    + injection H as <- <- <-. split; reflexivity.
+Qed.
+
+Lemma db_stage_inv : forall e s db coll ts s1 c1 r,
+  db_stage e s db coll ts = (s1, c1, r) -> parti s1 = parti s /\ all_probes c1 = true.
+Proof.
+  intros e s db coll ts s1 c1 r H. unfold db_stage in H.
+  destruct (String.eqb db "").
+  - injection H as <- <- <-. split; reflexivity.
+  - exact (wait_db_inv _ _ _ _ _ _ _ _ H).
+Qed.
+
+Lemma wait_coll_inv : forall e s coll db ts s1 c1 r,
+  wait_coll e s coll db ts = (s1, c1, r) -> parti s1 = parti s /\ all_probes c1 = true.
+Proof.
+  intros e s coll db ts s1 c1 r H.
+  rewrite wait_coll_tbl in H.
+  destruct (tbl_state (coli s) (coll_key coll db) ts).
+  - destruct (map_names (e_nm e) db coll) as [tdb tcoll]. cbv zeta in H.
+    destruct (existsb _ (e_colls e)); injection H as <- <- <-; split; reflexivity.
+  - injection H as <- <- <-. split; reflexivity.
+  - injection H as <- <- <-. split; reflexivity.
+Qed.
+
+Lemma all_probes_app : forall a b, all_probes a = true -> all_probes b = true -> all_probes (a ++ b) = true.
+Proof. intros a b Ha Hb. unfold all_probes in *. rewrite forallb_app, Ha, Hb. reflexivity. Qed.
+
+Lemma wait_obj_inv : forall e s db coll part ts s1 c1 r,
+  e_milvus e = true ->
+  wait_obj e s db coll part ts = (s1, c1, r) ->
+  pres ts (parti s) (parti s1) /\ all_probes c1 = true
+  /\ (r = Go -> coll <> ""%string -> part <> ""%string ->
+      tbl_state (parti s) (part_key part coll db) ts <> Dropped).
+Proof.
+  intros e s db coll part ts s1 c1 r Hm H.
+  rewrite (wait_obj_unfold _ _ _ _ _ _ Hm) in H.
+  destruct (db_stage e s db coll ts) as [[sa ca] ra] eqn:Ha.
+  destruct (db_stage_inv _ _ _ _ _ _ _ _ Ha) as [Hpa Hca].
+  destruct ra.
+  - injection H as <- <- <-. rewrite Hpa.
+    split; [apply pres_refl | split; [exact Hca | intros HH; discriminate HH]].
+  - (* Created *)
+    destruct (if String.eqb coll "" then (sa, [], Created) else wait_coll e sa coll db ts) as [[sb cb] rb] eqn:Hb.
+    assert (Hb' : parti sb = parti sa /\ all_probes cb = true).
+    { destruct (String.eqb coll "").
+      - injection Hb as <- <- <-. split; reflexivity.
+      - exact (wait_coll_inv _ _ _ _ _ _ _ _ Hb). }
+    destruct Hb' as [Hpb Hcb].
+    destruct rb.
+    + injection H as <- <- <-. rewrite Hpb, Hpa.
+      split; [apply pres_refl | split; [apply all_probes_app; assumption | intros HH; discriminate HH]].
+    + (* Created *)
+      destruct (String.eqb_spec coll "") as [Hc0 | Hc0].
+      * cbn [orb] in H. injection H as <- <- <-. rewrite Hpb, Hpa.
+        split; [apply pres_refl |
+                split; [repeat apply all_probes_app; try assumption; reflexivity | intros _ Hn; contradiction]].
+      * cbn [orb] in H.
+        destruct (String.eqb_spec part "") as [Hp0 | Hp0].
+        -- injection H as <- <- <-. rewrite Hpb, Hpa.
+           split; [apply pres_refl |
+                   split; [repeat apply all_probes_app; try assumption; reflexivity | intros _ _ Hn; contradiction]].
+        -- destruct (wait_part e sb coll part db ts) as [[sc cc] rc] eqn:Hc.
+           destruct (wait_part_inv _ _ _ _ _ _ _ _ _ Hc) as [Hpc [Hcc Hrc]].
+           injection H as <- <- <-.
+           rewrite Hpb, Hpa in Hpc, Hrc.
+           split; [exact Hpc | split; [repeat apply all_probes_app; assumption |]].
+           intros Hgo _ _. apply Hrc. intros ->. discriminate Hgo.
+    + injection H as <- <- <-. rewrite Hpb, Hpa.
+      split; [apply pres_refl | split; [apply all_probes_app; assumption | intros HH; discriminate HH]].
+  - injection H as <- <- <-. rewrite Hpa.
+    split; [apply pres_refl | split; [exact Hca | intros HH; discriminate HH]].
+Qed.
+
+Lemma filter_parts_inv : forall e db coll ts ps s s1 c1 o,
+  e_milvus e = true ->
+  filter_parts e s db coll ps ts = (s1, c1, o) ->
+  pres ts (parti s) (parti s1) /\ all_probes c1 = true
+  /\ (forall kept p, o = Some kept -> In p kept -> coll <> ""%string -> p <> ""%string ->
+      tbl_state (parti s) (part_key p coll db) ts <> Dropped).
+Proof.
+  intros e db coll ts ps.
+  induction ps as [| p r IH]; intros s s1 c1 o Hm H; cbn [filter_parts] in H.
+  - injection H as <- <- <-.
+    split; [apply pres_refl | split; [reflexivity |]].
+    intros kept p Hk Hin. injection Hk as <-. destruct Hin.
+  - destruct (wait_obj e s db coll p ts) as [[sa ca] w] eqn:Hw.
+    destruct (wait_obj_inv _ _ _ _ _ _ _ _ _ Hm Hw) as [Hpa [Hca Hgo]].
+    destruct w.
+    + (* Go *)
+      destruct (filter_parts e sa db coll r ts) as [[sb cb] ob] eqn:Hf.
+      destruct (IH _ _ _ _ Hm Hf) as [Hpb [Hcb Hk]].
+      injection H as <- <- <-.
+      split; [exact (pres_trans _ _ _ _ Hpa Hpb) | split; [apply all_probes_app; assumption |]].
+      intros kept p0 Ho Hin Hc Hp0.
+      destruct ob as [kept' |]; cbn in Ho; [| discriminate Ho].
+      injection Ho as <-.
+      destruct Hin as [<- | Hin].
+      * apply Hgo; [reflexivity | exact Hc | exact Hp0].
+      * intros Hd. apply (Hk kept' p0 eq_refl Hin Hc Hp0). apply Hpa. exact Hd.
+    + (* Skip *)
+      destruct (filter_parts e sa db coll r ts) as [[sb cb] ob] eqn:Hf.
+      destruct (IH _ _ _ _ Hm Hf) as [Hpb [Hcb Hk]].
+      injection H as <- <- <-.
+      split; [exact (pres_trans _ _ _ _ Hpa Hpb) | split; [apply all_probes_app; assumption |]].
+      intros kept p0 Ho Hin Hc Hp0 Hd.
+      apply (Hk kept p0 Ho Hin Hc Hp0). apply Hpa. exact Hd.
+    + (* Fail *)
+      injection H as <- <- <-.
+      split; [exact Hpa | split; [exact Hca |]].
+      intros kept p0 Ho. discriminate Ho.
+Qed.
+
+Lemma recheck_all_probes : forall e db coll ts bycoll ps s s1 c1 b,
+  e_milvus e = true ->
+  recheck_all e s db coll ps ts bycoll = (s1, c1, b) -> all_probes c1 = true.
+Proof.
+  intros e db coll ts bycoll ps.
+  induction ps as [| p r IH]; intros s s1 c1 b Hm H; cbn [recheck_all] in H.
+  - injection H as <- <- <-. reflexivity.
+  - destruct (if bycoll then wait_obj e s db p "" ts else wait_obj e s db coll p ts) as [[sa ca] w] eqn:Hw.
+    assert (Hca : all_probes ca = true).
+    { destruct bycoll; exact (proj1 (proj2 (wait_obj_inv _ _ _ _ _ _ _ _ _ Hm Hw))). }
+    destruct w.
+    + injection H as <- <- <-. exact Hca.
+    + destruct (recheck_all e sa db coll r ts bycoll) as [[sb cb] b'] eqn:Hr.
+      injection H as <- <- <-. apply all_probes_app; [exact Hca | exact (IH _ _ _ _ Hm Hr)].
+    + injection H as <- <- <-. exact Hca.
+Qed.
+
+Definition parts_ok (s : wst) (db coll : string) (ts : N) (cs : list call) : bool :=
+  forallb (fun c => is_probe (k_kind c)
+                    || forallb (fun p => negb (part_dropped s db coll p ts)) (k_names c)) cs.
+
+Lemma parts_ok_probes : forall s db coll ts cs, all_probes cs = true -> parts_ok s db coll ts cs = true.
+Proof.
+  intros s db coll ts cs. unfold all_probes, parts_ok.
+  induction cs as [| c r IH]; cbn [forallb]; intros H; [reflexivity |].
+  apply andb_prop in H. destruct H as [H1 H2]. rewrite H1, (IH H2). reflexivity.
+Qed.
+
+Lemma parts_ok_app : forall s db coll ts a b,
+  parts_ok s db coll ts a = true -> parts_ok s db coll ts b = true -> parts_ok s db coll ts (a ++ b) = true.
+Proof. intros s db coll ts a b Ha Hb. unfold parts_ok in *. rewrite forallb_app, Ha, Hb. reflexivity. Qed.
+
+Lemma kept_not_dropped : forall s db coll ts kept,
+  (forall p, In p kept -> coll <> ""%string -> p <> ""%string ->
+             tbl_state (parti s) (part_key p coll db) ts <> Dropped) ->
+  forallb (fun p => negb (part_dropped s db coll p ts)) kept = true.
+Proof.
+  intros s db coll ts kept H. apply forallb_forall. intros p Hin.
+  unfold part_dropped.
+  destruct (String.eqb_spec coll "") as [Hc | Hc]; [reflexivity |].
+  destruct (String.eqb_spec p "") as [Hp | Hp]; [reflexivity |].
+  specialize (H p Hin Hc Hp).
+  destruct (tbl_state (parti s) (part_key p coll db) ts); try reflexivity.
+  exfalso. apply H. reflexivity.
+Qed.
+
+(* shape shared by loadPartitions / releasePartitions *)
+Lemma parts_shape_ok : forall e s db coll ps ts (f : bool) (mkcall : list string -> call) s1 cs ok,
+  e_milvus e = true ->
+  (forall kept, k_names (mkcall kept) = kept) ->
+  (let '(sa, ca, o) := filter_parts e s db coll ps ts in
+   match o with
+   | None => (sa, ca, false)
+   | Some [] => (sa, ca, true)
+   | Some kept =>
+       if f then let '(sb, cb, ok) := recheck_all e sa db coll kept ts false in (sb, ca ++ [mkcall kept] ++ cb, ok)
+       else (sa, ca ++ [mkcall kept], true)
+   end) = (s1, cs, ok) ->
+  parts_ok s db coll ts cs = true.
+Proof.
+  intros e s db coll ps ts f mkcall s1 cs ok Hm Hn H.
+  destruct (filter_parts e s db coll ps ts) as [[sa ca] o] eqn:Hf.
+  destruct (filter_parts_inv _ _ _ _ _ _ _ _ _ Hm Hf) as [_ [Hca Hk]].
+  destruct o as [kept |].
+  - destruct kept as [| p0 kept'].
+    + injection H as <- <- <-. apply parts_ok_probes. exact Hca.
+    + set (kept := p0 :: kept') in *.
+      assert (Hcl : parts_ok s db coll ts [mkcall kept] = true).
+      { unfold parts_ok. cbn [forallb]. rewrite Hn.
+        rewrite (kept_not_dropped s db coll ts kept (fun p Hin => Hk kept p eq_refl Hin)).
+        rewrite orb_true_r. reflexivity. }
+      destruct f.
+      * destruct (recheck_all e sa db coll kept ts false) as [[sb cb] ok'] eqn:Hr.
+        injection H as <- <- <-.
+        apply parts_ok_app; [apply parts_ok_probes; exact Hca |].
+        change (mkcall kept :: cb) with ([mkcall kept] ++ cb).
+        apply parts_ok_app; [exact Hcl |].
+        apply parts_ok_probes. exact (recheck_all_probes _ _ _ _ _ _ _ _ _ _ Hm Hr).
+      * injection H as <- <- <-.
+        apply parts_ok_app; [apply parts_ok_probes; exact Hca | exact Hcl].
+  - injection H as <- <- <-. apply parts_ok_probes. exact Hca.
+Qed.
+
+Lemma handle_parts_ok : forall e s o f db coll ps ts s1 cs ok,
+  e_milvus e = true ->
+  parts_of o = Some (db, coll, ps, ts) ->
+  handle e s o f = (s1, cs, ok) ->
+  parts_ok s db coll ts cs = true.
+Proof.
+  intros e s o f db coll ps ts s1 cs ok Hm Hp Hh.
+  destruct o; cbn in Hp; try discriminate Hp; injection Hp as <- <- <- <-; cbn [handle] in Hh.
+  - destruct (map_names (e_nm e) db0 coll0) as [tdb tc] eqn:Hmn.
+    apply (parts_shape_ok e s db0 coll0 parts ets f
+             (fun kept => mk KLoadPartitions tdb "" tc kept pay stamp) s1 cs ok Hm (fun _ => eq_refl)).
+    rewrite <- Hh.
+    destruct (filter_parts e s db0 coll0 parts ets) as [[sa ca] [[| p0 k'] |]]; reflexivity.
+  - destruct (map_names (e_nm e) db0 coll0) as [tdb tc] eqn:Hmn.
+    apply (parts_shape_ok e s db0 coll0 parts ets f
+             (fun kept => mk KReleasePartitions tdb "" tc kept [] stamp) s1 cs ok Hm (fun _ => eq_refl)).
+    rewrite <- Hh.
+    destruct (filter_parts e s db0 coll0 parts ets) as [[sa ca] [[| p0 k'] |]]; reflexivity.
+Qed.
+
 Lemma model_passes_checker : forall e s ops,
   check_steps e s ops (run_obs e s ops) = true.
 Proof.
@@ -268,10 +579,13 @@ Proof.
     cbn [so_ok so_calls].
     rewrite IH, andb_true_r.
     destruct (e_milvus e) eqn:Hm; [| reflexivity].
-    destruct (op_target o) as [[[db coll] ts] |] eqn:Ht; [| reflexivity].
-    destruct (obj_dropped e s db coll ts) eqn:Hd; [| reflexivity].
-    destruct (dropped_skips e s db coll ts Hm Hd) as [s1' [c1' [Hw Hp]]].
-    rewrite (skip_is_silent e s o f db coll ts s1' c1' Ht Hw) in Hh.
-    injection Hh as <- <- <-.
-    exact Hp.
+    apply andb_true_intro. split.
+    + destruct (op_target o) as [[[db coll] ts] |] eqn:Ht; [| reflexivity].
+      destruct (obj_dropped e s db coll ts) eqn:Hd; [| reflexivity].
+      destruct (dropped_skips e s db coll ts Hm Hd) as [s1' [c1' [Hw Hp]]].
+      rewrite (skip_is_silent e s o f db coll ts s1' c1' Ht Hw) in Hh.
+      injection Hh as <- <- <-.
+      exact Hp.
+    + destruct (parts_of o) as [[[[db coll] ps] ts] |] eqn:Hp; [| reflexivity].
+      exact (handle_parts_ok e s o f db coll ps ts s1 cs ok Hm Hp Hh).
 Qed.
